@@ -140,6 +140,15 @@ def generate(seed, tier):
     # memoised planner answers these without a search)
     for N, s in ([(260, 259), (300, 299), (270, 400)] + ([(520, 519), (700, 1000)] if thorough else [])):
         g.mixed(N, s, "RAM" if N % 20 else "DISK", "memo")
+    # cold starts at larger sizes: each of these cases gets an interpreter of its own (runner.run_all), so nothing computed for a
+    # smaller problem is cached yet -- recursion depth and other start-up effects of the memoised helpers show here
+    g.mixed(600, 3, "RAM", "memo", comp="stream.mixed.cold")
+    g.mixed(520, 2, "DISK", "memo", comp="stream.mixed.cold")
+    g.multistage(1500, 0, 4, "max", comp="stream.multistage.cold")
+    g.multistage(1200, 2, 3, "rev", comp="stream.multistage.cold")
+    g.twolevel(900, 64, 3, "RAM", "max", 2, comp="stream.twolevel.cold")
+    g.rev("revolve", 240, 3, 0, COSTS[0], comp="stream.revolve.cold")
+    g.rev("hrevolve", 120, 2, 2, COSTS[0], comp="stream.hrevolve.cold")
     # ---------------- Revolve family
     NN, RR, DD = (22, 4, 3) if thorough else (14, 3, 2)
     costs = COSTS if thorough else COSTS[:9]
